@@ -46,6 +46,9 @@ CHECKS = {
  "C04": ("engine-b", "model_checking", B,
          "every reader-built netlist of the input space (C06 texts, bundled .v files under a byte cap) x transform (identity, uniquify, uniquify+flatten, clone) x composer options (write_blackbox, defparam) is written and read back; cables, per-bit endpoints, instances with parameters/attributes, assign bit pairs and ports must be equal over the modules reachable from the top",
          "names compared modulo Verilog escaping (IEEE 1364); inferred black-box ports are written inout (documented); with write_blackbox=False only primitive port names are compared"),
+ "C18": ("engine-b", "model_checking", B,
+         "EBLIF texts rendered by an independent writer (vlib/eblif_writer.py) from flat abstract designs (.subckt/.gate/.names/.latch/.conn, bus-indexed nets, unconn actuals, .cname/.attr/.param, a model instanced with a growing port set, constants, chained .conn) in every statement order x line-continuation positions x comments x black-box models declared before/after/never; instances, data, port directions and nets-as-pin-sets must equal the model, black boxes are leaf primitives, the netlist is well-formed; compose + parse reproduces instances, types, data and nets; bundled .eblif files pass the same well-formedness and round-trip clauses",
+         "bounded: 3 base designs of <= 5 statements; every instance carries a .cname; single-pin nets are not distinguished from unconnected pins; cover strings compared modulo surrounding blanks"),
 }
 m = {
  "version": 1,
